@@ -33,6 +33,11 @@ enum Case {
     /// one large session: n participants, the LAST `signers` of them sign (identifiers above 255,
     /// hundreds of commitments in the package)
     Large { suite: String, n: u16, t: u16, signers: u16, seed: String },
+    /// values whose encodings have a zero first / last byte, forced by seed search: a signing
+    /// share, a nonce, and a signature share of the session
+    ZeroBytes { suite: String, what: String, first: bool, seed: String },
+    /// a 70 000-byte message (longer than any u16 length field) and a 5 000-byte one
+    HugeMessage { suite: String, len: usize, seed: String },
     /// tiny field: all keys x coefficient vectors for one (ids, t, S), seeded nonces
     TinyKeys { q: u64, ids: Vec<u64>, t: u16, signers: u32 },
     /// tiny field: every nonce 4-tuple for |S| = 2, seeded keys
@@ -129,6 +134,16 @@ impl Prop for C01 {
             out.push(serde_json::to_value(Case::Large { suite: suite.to_string(), n, t: 2, signers: k, seed: format!("s{seed}") }).unwrap());
             out.push(serde_json::to_value(Case::Large { suite: suite.to_string(), n: k, t: k, signers: k, seed: format!("s{seed}") }).unwrap());
         }
+        for suite in REAL_SUITES {
+            for what in ["share", "nonce", "sigshare", "signature-z", "key"] {
+                for first in [true, false] {
+                    out.push(serde_json::to_value(Case::ZeroBytes { suite: suite.to_string(), what: what.to_string(), first, seed: format!("s{seed}") }).unwrap());
+                }
+            }
+            for len in [5000usize, 70000] {
+                out.push(serde_json::to_value(Case::HugeMessage { suite: suite.to_string(), len, seed: format!("s{seed}") }).unwrap());
+            }
+        }
         // tiny layers
         for q in [7u64, 11] {
             let nmax = tier.pick(3usize, 4usize);
@@ -177,6 +192,7 @@ impl Prop for C01 {
         match &c {
             Case::Real { suite, .. } => with_suite!(suite.as_str(), run_real, &c),
             Case::Large { suite, .. } => with_suite!(suite.as_str(), run_large, &c),
+            Case::ZeroBytes { suite, .. } | Case::HugeMessage { suite, .. } => with_suite!(suite.as_str(), run_patterns, &c),
             Case::TinyKeys { q, .. } | Case::TinyNonces { q, .. } => match q {
                 7 => run_tiny::<7>(&c),
                 11 => run_tiny::<11>(&c),
@@ -232,6 +248,63 @@ fn run_large<C: Suite>(c: &Case) -> Outcome {
     let s: Vec<_> = grp.ids.iter().rev().take(*signers as usize).rev().copied().collect();
     session_check::<C>(&mut o, &format!("{tag}/large"), &grp.kps, &grp.pkp, &s, &message(2), &format!("{seed}:large"));
     o.count("large_sessions", 1);
+    o
+}
+
+fn run_patterns<C: Suite>(c: &Case) -> Outcome {
+    let mut o = Outcome::new();
+    let tag = format!("C01/{}", C::name());
+    match c {
+        Case::HugeMessage { len, seed, .. } => {
+            let grp = cached_group::<C>(KeySrc::Dealer, 3, 2, IdKind::U16x, seed).expect("group");
+            let s: Vec<_> = grp.ids.iter().take(2).copied().collect();
+            let m: Vec<u8> = (0..*len).map(|i| (i % 251) as u8).collect();
+            session_check::<C>(&mut o, &format!("{tag}/huge-message"), &grp.kps, &grp.pkp, &s, &m, seed);
+            o.count("huge_messages", 1);
+        }
+        Case::ZeroBytes { what, first, seed, .. } => {
+            let pos = |b: &[u8]| if *first { b[0] == 0 } else { b[b.len() - 1] == 0 };
+            let m = message(2);
+            let mut found = false;
+            for k in 0..4000 {
+                let gseed = format!("{seed}.zb.{}", if what == "share" || what == "key" { k } else { 0 });
+                let Ok(grp) = make_group::<C>(KeySrc::Dealer, 3, 2, IdKind::U16x, &gseed) else { continue };
+                let s: Vec<_> = grp.ids.iter().take(2).copied().collect();
+                let hit = match what.as_str() {
+                    "share" => pos(&grp.kps[&s[0]].signing_share().serialize()),
+                    "key" => pos(&grp.pkp.verifying_key().serialize().unwrap_or(vec![1])[1..]) || (*first && false),
+                    _ => {
+                        let Ok(sess) = run_session::<C>(&grp.kps, &s, &m, &format!("{seed}.zbs.{k}")) else { continue };
+                        match what.as_str() {
+                            "nonce" => pos(&sess.nonces[&s[0]].hiding().serialize()) || pos(&sess.nonces[&s[0]].binding().serialize()),
+                            "sigshare" => pos(&sess.shares[&s[0]].serialize()),
+                            _ => match fc::aggregate(&sess.pkg, &sess.shares, &grp.pkp) {
+                                Ok(sig) => pos(&sc_bytes::<C>(sig.z())),
+                                Err(_) => false,
+                            },
+                        }
+                    }
+                };
+                if hit {
+                    let sseed = if what == "share" || what == "key" { format!("{seed}.zbs") } else { format!("{seed}.zbs.{k}") };
+                    session_check::<C>(&mut o, &format!("{tag}/zero-{}-byte-in-{what}", if *first { "first" } else { "last" }), &grp.kps, &grp.pkp, &s, &m, &sseed);
+                    // and through a serialize/deserialize round trip of everything that travels
+                    let kp = &grp.kps[&s[0]];
+                    if kp.serialize().ok().and_then(|b| KeyPackage::<C>::deserialize(&b).ok()).as_ref() != Some(kp) {
+                        o.fail(format!("{tag}/zero-byte-roundtrip"), format!("key package with a zero {} byte in its {what} does not round-trip", if *first { "first" } else { "last" }));
+                    }
+                    o.count("forced_zero_byte_patterns", 1);
+                    found = true;
+                    break;
+                }
+            }
+            if !found {
+                o.eval(false);
+                o.count("zero_byte_pattern_not_reached", 1);
+            }
+        }
+        _ => unreachable!(),
+    }
     o
 }
 
